@@ -239,8 +239,125 @@ def _r3(ctx):
         ctx.ok("R3", "no-other-writer of k/kh/kc", ("naunet/templates", 0), "no template text assigns k[], kh[] or kc[] (only the generated statements do)")
 
 
+def number_regex_profile(pattern: str):
+    """Which exponent letters and exponent signs a number-extracting regex admits (read off re._parser's AST)."""
+    import re._parser as sp
+    prof = {"exp_letters": set(), "exp_sign": set(), "has_digits": False}
+
+    def chars(node):
+        op, a = node
+        if op is sp.LITERAL:
+            return {chr(a)}
+        if op is sp.IN:
+            out = set()
+            for o2, a2 in a:
+                if o2 is sp.LITERAL:
+                    out.add(chr(a2))
+                elif o2 is sp.RANGE:
+                    out |= {chr(c) for c in range(a2[0], a2[1] + 1)}
+                elif o2 is sp.CATEGORY and a2 is sp.CATEGORY_DIGIT:
+                    out |= set("0123456789")
+            return out
+        return set()
+
+    def seq(items):
+        items = list(items)
+        for i, node in enumerate(items):
+            op, a = node
+            c = chars(node)
+            if c & set("0123456789"):
+                prof["has_digits"] = True
+            if c and c <= set("eEdD"):
+                prof["exp_letters"] |= c
+                # the sign that may follow
+                if i + 1 < len(items):
+                    nop, na = items[i + 1]
+                    if nop in (sp.MAX_REPEAT, sp.MIN_REPEAT) and na[0] == 0:
+                        for sub in na[2]:
+                            prof["exp_sign"] |= chars(sub) & set("+-")
+                    else:
+                        prof["exp_sign"] |= chars(items[i + 1]) & set("+-")
+            if op in (sp.MAX_REPEAT, sp.MIN_REPEAT):
+                seq(a[2])
+                for sub in a[2]:
+                    if chars(sub) & set("0123456789"):
+                        prof["has_digits"] = True
+            elif op is sp.SUBPATTERN:
+                seq(a[3])
+            elif op is sp.BRANCH:
+                for br in a[1]:
+                    seq(br)
+    try:
+        seq(sp.parse(pattern))
+    except Exception:
+        return None
+    return prof
+
+
+def _krome_regex_extractor(ctx, pkg, fn):
+    """The window parser was rewritten around a number-extracting regular expression: decide the necessary condition
+    that the extractor admits every exponent spelling float() and the KROME syntax admit."""
+    ci = pkg.cls("KROMEReaction")
+    pats = []
+    for n in ast.walk(ci.node):
+        if isinstance(n, ast.Call) and ast.unparse(n.func) in ("re.compile", "re.search", "re.match", "re.findall", "re.fullmatch") and n.args and isinstance(n.args[0], ast.Constant) \
+                and isinstance(n.args[0].value, str) and "\\d" in n.args[0].value and "idx_" not in n.args[0].value:
+            flags = " ".join(ast.unparse(a) for a in n.args[1:]) + " ".join(ast.unparse(k.value) for k in n.keywords)
+            pats.append((n.args[0].value, n.lineno, flags))
+    src = ast.unparse(fn)
+    used = [p for p in pats if p[0] not in (r"(\d\.?)d(\-?\d)",)]
+    if not used or "float(" not in src:
+        ctx.unrec("R4", "KROME window parser", (KROME, fn.lineno), "the tmin/tmax branches were restructured beyond what the rule understands")
+        return
+    lowered = ".lower()" in src or ".casefold()" in src
+    uppered = ".upper()" in src and "search(value.upper()" in src.replace(" ", "")
+    for pat, line, flags in used:
+        prof = number_regex_profile(pat)
+        if prof is None or not prof["has_digits"]:
+            continue
+        icase = "IGNORECASE" in flags or "re.I" in flags or "(?i)" in pat
+        letters = set(prof["exp_letters"])
+        if icase:
+            letters |= {c.swapcase() for c in letters}
+        need = {"e", "d"} if lowered else ({"E", "D"} if uppered else {"e", "d", "E", "D"})
+        miss_l = need - letters
+        miss_s = {"+", "-"} - prof["exp_sign"]
+        ok = not miss_l and not miss_s
+        ctx.check(ok, "R4", f"KROME:window number extractor {pat!r}", (KROME, line),
+                  "the extractor admits every exponent spelling of a KROME temperature limit" if ok else
+                  "the regular expression that picks the number out of a temperature limit does not admit "
+                  + (f"the exponent letters {sorted(miss_l)}" if miss_l else "") + (" and " if miss_l and miss_s else "")
+                  + (f"the exponent sign {sorted(miss_s)}" if miss_s else "")
+                  + ": a limit such as 5.5E3 / 1.0e+01 is silently cut at the exponent (5.5 / 1.0) and the window guard is wrong",
+                  expected="[-+]?digits[.digits][(e|E|d|D)[-+]?digits]", found=f"exponent letters {sorted(prof['exp_letters'])}, exponent sign {sorted(prof['exp_sign'])}" + (" (subject lower-cased)" if lowered else ""))
+    ctx.unrec("R4", "KROME window parser:mapping", (KROME, fn.lineno),
+              "the restructured tmin/tmax handling (operator stripping, no-bound spellings, field -> attribute mapping) is not in a form this rule can decide") \
+        if all(o.outcome != "VIOLATION" for o in ctx.obs if o.rule == "R4" and "extractor" in o.key) else None
+
+
+def _windows_unconditional(ctx, pkg):
+    """Every fixed-format parser stores float(<field>) into temp_min / temp_max -- no silent fallback to 'unbounded'."""
+    from ..valueflow import Flow
+    for cls in ("UMISTReaction", "KIDAReaction", "LEEDSReaction", "UCLCHEMReaction", "Reaction"):
+        fn = pkg.method(cls, "_parse_string")
+        file = pkg.cls(cls).file
+        fl = Flow(fn, file)
+        for attr in ("temp_min", "temp_max"):
+            st = [f for f in fl.facts if f.kind == "attrstore" and f.target == attr]
+            if not st:
+                ctx.bad("R4", f"{cls}:{attr} stored", (file, fn.lineno), f"{cls}._parse_string never stores {attr}")
+                continue
+            v = simp(st[-1].value)
+            ok = v[0] == "call" and v[1] == ("global", "float") and len(v[2]) == 1 and (v[2][0][0] in ("item", "sub") or (v[2][0][0] == "phi" and cls == "UCLCHEMReaction"))
+            ctx.check(ok, "R4", f"{cls}:{attr} = float(field)", (file, st[-1].line),
+                      f"self.{attr} is float(<the field of the record>)" if ok else
+                      f"self.{attr} is not simply float(<field>): a limit the code does not like (fractional, exponent notation) silently becomes another value / 'unbounded', so the window guard is lost",
+                      expected="float(<field>)", found=show(v)[:100])
+
+
 def _r4(ctx):
     pkg = package(ctx.tree)
+    _windows_unconditional(ctx, pkg)
     fn = pkg.method("KROMEReaction", "_parse_string")
     ctx.saw(KROME, "KROMEReaction._parse_string")
     want_ops = {"<", ">", ".LE.", ".GE.", ".LT.", ".GT."}
@@ -268,6 +385,9 @@ def _r4(ctx):
             attr = "temp_min" if which == "tmin" else "temp_max"
             tgt = [ast.unparse(t) for x in ast.walk(body) if isinstance(x, ast.Assign) for t in x.targets if isinstance(t, ast.Attribute)]
             ctx.check(tgt == [f"self.{attr}"], "R4", f"KROME:{which}:target", (KROME, node.lineno), f"the {which} field feeds self.{attr} only", found=str(tgt))
+    if found < 2:
+        _krome_regex_extractor(ctx, pkg, fn)
+        return
     ctx.floor("R4", "KROME window branches", found, 2, (KROME, fn.lineno))
     # defaults
     init = pkg.method("Reaction", "__init__")
